@@ -22,6 +22,8 @@ def run(ctx):
     # TRACE: seeded wide-domain tracks
     cases = _notes.seeded_tracks(ctx, "C02", ctx.pick(400, 6000), unit_gap_p=0.3)
     _notes._judge(ctx, cases, "C02", "seeded tracks", max_skip_ratio=0.01)
+    # ticks around the constants a platform knows (2^31, 2^32, 2^53, 2^63, 2^64)
+    _notes._judge(ctx, _notes.platform_constant_tracks("C02", r), "C02", "ticks around platform constants", max_skip_ratio=0.0)
     # several instrument sections in one chart, each judged as if it were alone
     cases = _notes.seeded_multi(ctx, "C02", ctx.pick(150, 2500), unit_gap_p=0.3)
     _notes._judge_multi(ctx, cases, "C02", "seeded charts with several sections", max_skip_ratio=0.02)
